@@ -8,7 +8,7 @@ Definition okseg (t0 dur cnt : Z) : fobs :=
 Definition mk_rep (id ct : string) (its : Z) (files : list fobs) : mpd_rep :=
   {| m_id := id; m_ctype := ct; m_as_codecs := "x"; m_rep_codecs := ""; m_inituri := id ++ "/init.mp4";
      m_mediauri := id ++ "/$Number$.m4s"; m_timescale := None; m_timeline := None; m_startnr := Some 1; m_endnr := None;
-     m_duration := None; m_init := IOk its 0 false; m_files := files; m_tfiles := fun _ => FMissing |}.
+     m_duration := None; m_init_at := fun _ => IOk its 0 false; m_files := files; m_tfiles := fun _ => FMissing |}.
 
 (** testpic_2s in miniature: audio first, then video; 4 segments of 2 s each. *)
 Definition w_a48 := mk_rep "A48" "audio" 48000 [okseg 0 1024 94; okseg 96256 1024 94; okseg 192512 1024 93; okseg 287744 1024 94].
@@ -91,7 +91,7 @@ Proof. vm_compute. reflexivity. Qed.
     DefaultSampleDuration to the trex value, the scan has the tfhd value. *)
 Definition w_ts0 := mk_rep "T0" "text" 0 [okseg 0 3000 60].
 Lemma w_ts0_differs :
-  exists r r', scan_rep w_ts0 = Ok r /\ load_json stored dec0 (enc0 (to_stored r)) (m_init w_ts0) = Ok r' /\
+  exists r r', scan_rep w_ts0 = Ok r /\ load_json stored dec0 (enc0 (to_stored r)) (m_init_at w_ts0) = Ok r' /\
                r_dsd r = 3000 /\ r_dsd r' = 0.
 Proof. eexists. eexists. split; [vm_compute; reflexivity|]. split; [vm_compute; reflexivity|]. split; reflexivity. Qed.
 
@@ -112,7 +112,7 @@ Proof. vm_compute. reflexivity. Qed.
 Definition w_tgap : mpd_rep :=
   {| m_id := "V1"; m_ctype := "video"; m_as_codecs := "x"; m_rep_codecs := ""; m_inituri := "V1/init.mp4";
      m_mediauri := "V1/$Time$.m4s"; m_timescale := Some 1000; m_timeline := Some [ {| e_t := Some 0; e_d := 2000; e_r := 1 |} ];
-     m_startnr := None; m_endnr := None; m_duration := None; m_init := IOk 1000 40 false; m_files := [];
+     m_startnr := None; m_endnr := None; m_duration := None; m_init_at := fun _ => IOk 1000 40 false; m_files := [];
      m_tfiles := fun t => if t =? 0 then okseg 0 40 50 else if t =? 2000 then okseg 2300 40 50 else FMissing |}.
 Definition w_l4 : mpd_list :=
   [("tg", "Manifest.mpd", MOk [ {| as_has_template := true; as_ctype := "video"; as_reps := [(false, w_tgap)] |} ])].
@@ -130,7 +130,7 @@ Proof. vm_compute. reflexivity. Qed.
 Definition w_thumbs : mpd_rep :=
   {| m_id := "thumbs"; m_ctype := "image"; m_as_codecs := ""; m_rep_codecs := ""; m_inituri := "";
      m_mediauri := "thumbs/$Number$.jpg"; m_timescale := None; m_timeline := None; m_startnr := Some 1; m_endnr := None;
-     m_duration := None; m_init := IBad; m_files := [okseg 0 0 0; okseg 0 0 0]; m_tfiles := fun _ => FMissing |}.
+     m_duration := None; m_init_at := fun _ => IBad; m_files := [okseg 0 0 0; okseg 0 0 0]; m_tfiles := fun _ => FMissing |}.
 Definition w_l5 : mpd_list :=
   [("th", "Manifest.mpd",
     MOk [ {| as_has_template := true; as_ctype := "video"; as_reps := [(false, w_v300)] |};
